@@ -244,8 +244,10 @@ class SymArray:
     def cumsum(self, axis=None):
         return m_cumsum(self)
 
-    def clip(self, lo, hi):
-        return m_clip(self, lo, hi)
+    def clip(self, min=None, max=None, **kw):   # noqa: A002 -- numpy's keyword names
+        if kw:
+            raise Unsupported(f"ndarray.clip({sorted(kw)})")
+        return m_clip(self, min, max)
 
     def astype(self, t):
         if t in (int, "int", numpy.int64, "int64"):
@@ -751,8 +753,19 @@ def m_take(a, indices, axis=None, out=None, mode="raise"):
     return SymArray(res, getattr(a, "dtype", None))
 
 
-def m_clip(a, lo, hi, **kw):
-    return elementwise(lambda x: R.py_max([lo, R.py_max([x, hi], False)], True), a)
+def m_clip(a, a_min=None, a_max=None, min=None, max=None, **kw):   # noqa: A002
+    if kw:
+        raise Unsupported(f"numpy.clip({sorted(kw)})")
+    lo = a_min if a_min is not None else min
+    hi = a_max if a_max is not None else max
+
+    def one(x):
+        if hi is not None:
+            x = R.py_max([x, hi], False)
+        if lo is not None:
+            x = R.py_max([lo, x], True)
+        return x
+    return elementwise(one, a)
 
 
 def m_cumsum(a, axis=None, **kw):
@@ -931,6 +944,22 @@ class SymSeries:
 
     def astype(self, t):
         return SymSeries(self.a.astype(t), self.name)
+
+    def to_numpy(self, dtype=None, copy=False, na_value=None):
+        if na_value is not None:
+            raise Unsupported("Series.to_numpy(na_value=...)")
+        return self.a._copy() if dtype is None else self.a.astype(dtype)
+
+    def to_list(self):
+        return list(self.a.e)
+
+    tolist = to_list
+
+    def __getitem__(self, idx):
+        if isinstance(idx, SymSeries):
+            idx = idx.a
+        r = self.a[idx]
+        return SymSeries(r, self.name) if isinstance(r, SymArray) else r
 
     def unique(self):
         return list(self.a.e)       # duplicates are irrelevant for the membership tests made on it
